@@ -101,6 +101,8 @@ type clientIter struct {
 	ub       bool
 	local    db.Iterator // the same iterator on a local snapshot (ground truth)
 	localSn  db.Snapshot
+	alt      db.Iterator // model pins at the transaction's beginning: the same iterator pinned at OPEN,
+	altSn    db.Snapshot // only to NAME a divergence that is the known "cursor pins the content of its OPEN"
 	lastOp   string
 	lastOK   bool
 	closed   bool
@@ -117,6 +119,8 @@ type slot struct {
 	localView db.Snapshot // the store when the handler began
 	rawSnaps  map[int]db.Snapshot
 	rawIts    map[int]db.Iterator
+	rawAlt    map[int]db.Iterator
+	rawAltSn  map[int]db.Snapshot
 }
 
 type replayer struct {
@@ -151,7 +155,15 @@ func (r *replayer) closeLocal(sl *slot) {
 			_ = ci.localSn.Close()
 			ci.localSn = nil
 		}
+		ci.closeAlt()
 	}
+	for _, it := range sl.rawAlt {
+		_ = it.Close()
+	}
+	for _, sn := range sl.rawAltSn {
+		_ = sn.Close()
+	}
+	sl.rawAlt, sl.rawAltSn = map[int]db.Iterator{}, map[int]db.Snapshot{}
 	for _, it := range sl.rawIts {
 		_ = it.Close()
 	}
@@ -163,6 +175,22 @@ func (r *replayer) closeLocal(sl *slot) {
 		_ = sl.localView.Close()
 		sl.localView = nil
 	}
+}
+
+func (ci *clientIter) closeAlt() {
+	if ci.alt != nil {
+		_ = ci.alt.Close()
+		ci.alt = nil
+	}
+	if ci.altSn != nil {
+		_ = ci.altSn.Close()
+		ci.altSn = nil
+	}
+}
+
+func newSlot(kind string) *slot {
+	return &slot{kind: kind, its: map[int]*clientIter{}, rawSnaps: map[int]db.Snapshot{}, rawIts: map[int]db.Iterator{},
+		rawAlt: map[int]db.Iterator{}, rawAltSn: map[int]db.Snapshot{}}
 }
 
 func (r *replayer) closeAllLocal() {
@@ -275,6 +303,7 @@ func localHas(rd db.KeyValueReader, key []byte) bool {
 
 type outcome struct {
 	obs    result
+	alt    *result // what the cursor answers when it pins the content of its OPEN (the code as it is)
 	local  *result // ground truth from the local store, when the step is a read
 	note   string
 	errTxt string
@@ -333,7 +362,7 @@ func (r *replayer) do(a action, exp result) (o outcome, fatal error) {
 		w.g.mu.Lock()
 		w.g.hold = true
 		w.g.mu.Unlock()
-		ns := &slot{its: map[int]*clientIter{}, rawSnaps: map[int]db.Snapshot{}, rawIts: map[int]db.Iterator{}}
+		ns := newSlot("")
 		if a.Name == "TxOpen" {
 			ns.kind = "tx"
 			ns.tx = w.rdb.NewIndexedBatch()
@@ -390,7 +419,7 @@ func (r *replayer) do(a action, exp result) (o outcome, fatal error) {
 		var err error
 		if a.Name == "DBNewIter" {
 			r.closeLocal(sl)
-			sl = &slot{kind: "dbiter", its: map[int]*clientIter{}, rawSnaps: map[int]db.Snapshot{}, rawIts: map[int]db.Iterator{}}
+			sl = newSlot("dbiter")
 			r.slots[a.S] = sl
 			sl.localView = w.store.NewSnapshot()
 			it, err = w.rdb.NewIterator(lo, a.Ub)
@@ -412,6 +441,14 @@ func (r *replayer) do(a action, exp result) (o outcome, fatal error) {
 		ci.local, ci.localSn, err = r.localIter(sl, lo, a.Ub)
 		if err != nil {
 			return o, fmt.Errorf("local iterator: %w", err)
+		}
+		if r.fix.Snapshot && a.Name == "TxNewIter" {
+			ci.altSn = r.w.store.NewSnapshot()
+			if r.fix.Bounds {
+				ci.alt, _ = ci.altSn.NewIterator(lo, a.Ub)
+			} else {
+				ci.alt, _ = ci.altSn.NewIterator(nil, false)
+			}
 		}
 		if id == 0 {
 			id = exp.C // this tree's client does not expose the cursor id
@@ -453,6 +490,25 @@ func (r *replayer) do(a action, exp result) (o outcome, fatal error) {
 			}
 			o.local = &lr
 		}
+		if ci.alt != nil && !ci.closed {
+			var aok bool
+			switch a.Name {
+			case "ItFirst":
+				aok = ci.alt.First()
+			case "ItNext":
+				aok = ci.alt.Next()
+			case "ItSeek":
+				aok = ci.alt.Seek(toBytes(a.T))
+			case "ItValid":
+				aok = ci.alt.Valid()
+			}
+			ar := result{Kind: "invalid"}
+			if aok {
+				v, _ := ci.alt.Value()
+				ar = result{Kind: "at", K: r.keyIndex(ci.alt.Key()), V: string(v)}
+			}
+			o.alt = &ar
+		}
 	case "ItClose":
 		ci := sl.its[a.C]
 		if ci == nil {
@@ -468,6 +524,7 @@ func (r *replayer) do(a action, exp result) (o outcome, fatal error) {
 			_ = ci.localSn.Close()
 			ci.localSn = nil
 		}
+		ci.closeAlt()
 		if err != nil {
 			o.obs = result{Kind: "err"}
 			o.errTxt = err.Error()
@@ -614,6 +671,11 @@ func (r *replayer) do(a action, exp result) (o outcome, fatal error) {
 				return o, err
 			}
 			sl.rawIts[id] = it
+			if r.fix.Snapshot {
+				sn := w.store.NewSnapshot()
+				sl.rawAltSn[id] = sn
+				sl.rawAlt[id], _ = sn.NewIterator(nil, false)
+			}
 		case "GET":
 			var lr result
 			if r.fix.Snapshot {
@@ -635,6 +697,14 @@ func (r *replayer) do(a action, exp result) (o outcome, fatal error) {
 			if sn := sl.rawSnaps[a.C]; sn != nil {
 				_ = sn.Close()
 				delete(sl.rawSnaps, a.C)
+			}
+			if it := sl.rawAlt[a.C]; it != nil {
+				_ = it.Close()
+				delete(sl.rawAlt, a.C)
+			}
+			if sn := sl.rawAltSn[a.C]; sn != nil {
+				_ = sn.Close()
+				delete(sl.rawAltSn, a.C)
 			}
 		default:
 			it := sl.rawIts[a.C]
@@ -660,6 +730,27 @@ func (r *replayer) do(a action, exp result) (o outcome, fatal error) {
 				lr = result{Kind: "pair", K: r.keyIndex(it.Key()), V: string(v), ID: a.C}
 			}
 			o.local = &lr
+			if ait := sl.rawAlt[a.C]; ait != nil {
+				var aok bool
+				switch a.Op {
+				case "SEEK":
+					aok = ait.Seek(toBytes(a.T))
+				case "SEEK_EXACT":
+					aok = ait.Seek(toBytes(a.T)) && bytes.Equal(ait.Key(), toBytes(a.T))
+				case "NEXT":
+					aok = ait.Next()
+				case "FIRST":
+					aok = ait.First()
+				case "CURRENT":
+					aok = ait.Valid()
+				}
+				ar := result{Kind: "empty", ID: a.C}
+				if aok {
+					v, _ := ait.Value()
+					ar = result{Kind: "pair", K: r.keyIndex(ait.Key()), V: string(v), ID: a.C}
+				}
+				o.alt = &ar
+			}
 		}
 	case "RawCloseSend":
 		_ = sl.raw.CloseSend()
@@ -735,13 +826,17 @@ func inBounds(k, lo []byte, ub bool) string {
 
 // classify names the divergence: the signature of a confirmed defect when the shape is its, else a
 // key built from the call, its context and the kind of difference.
-func (r *replayer) classify(a action, exp, obs result, sl *slot, against string) string {
+func (r *replayer) classify(a action, exp, obs result, alt *result, sl *slot, against string) string {
 	lower := strings.ToLower
+	if alt != nil && sameRes(*alt, obs) && !sameRes(*alt, exp) {
+		// exactly what a cursor pinned at its own OPEN answers, not what the transaction's view holds
+		return "remotedb:tx:not-point-in-time:cursor-pins-open-time"
+	}
 	switch a.Name {
 	case "ItFirst":
 		if obs.Kind == "invalid" && against == "spec" {
 			if !r.streamAlive(sl) {
-				return "remotedb:iterator:first:kills-stream"
+				return "remotedb:first-unsupported:iterator-kills-stream"
 			}
 		}
 	case "TxHas", "DBHas":
@@ -754,9 +849,8 @@ func (r *replayer) classify(a action, exp, obs result, sl *slot, against string)
 		}
 	case "RawReq":
 		if a.Op == "FIRST" && obs.Kind == "err" && exp.Kind != "err" {
-			return "remotedb:protocol:first:unknown-operation"
+			return "remotedb:first-unsupported:raw-request-refused"
 		}
-		return fmt.Sprintf("remotedb:raw:%s:%s", lower(a.Op), diffKind(exp, obs))
 	case "TxGet":
 		if exp.Kind != "err" && obs.Kind != "err" {
 			live := getRes(r.w.store, r.keys[a.K-1])
@@ -764,6 +858,22 @@ func (r *replayer) classify(a action, exp, obs result, sl *slot, against string)
 				return "remotedb:tx:not-point-in-time:get-sees-later-write"
 			}
 		}
+	}
+	// a Has / a raw GET that answers from the live store instead of the transaction's view
+	if (a.Name == "TxHas" && exp.Kind == "has" && obs.Kind == "has") ||
+		(a.Name == "RawReq" && a.Op == "GET" && exp.Kind != "err" && obs.Kind != "err") {
+		live := localHas(r.w.store, r.keys[a.K-1])
+		if (a.Name == "TxHas" && obs.B == live && exp.B != live) || (a.Name == "RawReq" && (obs.Kind == "pair") == live && (exp.Kind == "pair") != live) {
+			return "remotedb:tx:not-point-in-time:get-sees-later-write"
+		}
+		if a.Name == "RawReq" && live && obs.Kind == "pair" && exp.Kind == "pair" && obs.V != exp.V {
+			if lv := getRes(r.w.store, r.keys[a.K-1]); lv.V == obs.V {
+				return "remotedb:tx:not-point-in-time:get-sees-later-write"
+			}
+		}
+	}
+	if a.Name == "RawReq" {
+		return fmt.Sprintf("remotedb:raw:%s:%s", lower(a.Op), diffKind(exp, obs))
 	}
 	if strings.HasPrefix(a.Name, "It") && a.Name != "ItClose" {
 		ci := sl.its[a.C]
@@ -887,7 +997,7 @@ func TestRemoteReplay(t *testing.T) {
 				o.obs.C = exp.C // the client does not expose the cursor id on this tree
 			}
 			if !sameRes(exp, o.obs) {
-				report(i, r.classify(st.A, exp, o.obs, sl, "spec"),
+				report(i, r.classify(st.A, exp, o.obs, o.alt, sl, "spec"),
 					fmt.Sprintf("the specification says %s, the real code answered %s %s %s", resText(exp), resText(o.obs), o.errTxt, o.note), exp, o.obs)
 				break
 			}
@@ -907,7 +1017,7 @@ func TestRemoteReplay(t *testing.T) {
 				}
 			}
 			if o.local != nil && healthy && !sameRes(*o.local, o.obs) {
-				report(i, r.classify(st.A, *o.local, o.obs, sl, "local")+":differs-from-local-snapshot",
+				report(i, r.classify(st.A, *o.local, o.obs, o.alt, sl, "local")+":differs-from-local-snapshot",
 					fmt.Sprintf("the same call on a local snapshot of the store answers %s, the remote database %s", resText(*o.local), resText(o.obs)), *o.local, o.obs)
 				break
 			}
@@ -938,10 +1048,10 @@ func TestRemoteReplay(t *testing.T) {
 					key = "remotedb:iterator-closed-early:" + st.A.Name
 				}
 				if st.A.Name == "ItFirst" && h < st.Proj.Handlers {
-					key = "remotedb:iterator:first:kills-stream"
+					key = "remotedb:first-unsupported:iterator-kills-stream"
 				}
 				if st.A.Name == "RawReq" && st.A.Op == "FIRST" && h < st.Proj.Handlers {
-					key = "remotedb:protocol:first:unknown-operation"
+					key = "remotedb:first-unsupported:raw-request-refused"
 				}
 				last, _ := w.lastErr.Load().(string)
 				report(i, key, fmt.Sprintf("server side after the call: %d Tx handlers running and %d iterators open, the specification has %d and %d (last handler error: %q)",
